@@ -30,7 +30,7 @@ class _CombinationPointToPoint(_BaseCombination):
             raise PreprocessError('This combination mode needs frame 1 and frame 2 to be provided and of the same length.')
 
     def __call__(self, traces):
-        dtype = max(traces.dtype, self.precision)
+        dtype = _np.promote_types(traces.dtype, self.precision)
         frame_1 = ... if self.frame_1 is None else self.frame_1
         frame_2 = ... if self.frame_2 is None else self.frame_2
         return self._operation(traces[:, frame_1].astype(dtype),
@@ -46,7 +46,7 @@ class _CombinationOfTwoFrames(_BaseCombination):
         super()._set_frames(frame_1, frame_2)
 
     def __call__(self, traces):
-        dtype = max(traces.dtype, self.precision)
+        dtype = _np.promote_types(traces.dtype, self.precision)
         chunk_1 = traces[:, self.frame_1].astype(dtype)
         chunk_2 = traces[:, self.frame_2].astype(dtype)
 
@@ -88,7 +88,7 @@ class _CombinationFrameOnDistance(_BaseCombination):
         return cnt, result
 
     def __call__(self, traces):
-        dtype = max(traces.dtype, self.precision)
+        dtype = _np.promote_types(traces.dtype, self.precision)
         chunk_1 = chunk_2 = traces[:, self.frame_1].astype(dtype)
         result_size, _ = self._execute(chunk_1, chunk_2)
 
